@@ -7,12 +7,15 @@ vars == <<bvars, l>>
 Ev == Log[l]
 IsEvent(e) == l <= Len(Log) /\ Log[l].e = e /\ l' = l + 1
 
+(* every event also carries state = {broker: {key: accepted now}} (Service.Authorize asked directly after the step):
+   the ban state of every key on every broker is observed after EVERY step, not only when the behaviour uses the key *)
+StateOK == \A b \in Brokers, k \in BanKeys : Ev.state[b][k] = ~IsBanned(ban'[b][k])
 TrReset   == IsEvent("reset")   /\ ban' = [b \in Brokers |-> [k \in BanKeys |-> Zero]] /\ clock' = 1
-TrBan     == IsEvent("ban")     /\ Ev.status = 200 /\ DoBan(Ev.b, Ev.k)
-TrUnban   == IsEvent("unban")   /\ Ev.status = 200 /\ DoUnban(Ev.b, Ev.k)
-TrUse     == IsEvent("use")     /\ Ev.ok = UseAllowed(Ev.b, Ev.k) /\ Use(Ev.b, Ev.k)      \* refused iff banned, at once
-TrRestart == IsEvent("restart") /\ Restart(Ev.b)
-TrGossip  == IsEvent("gossip")  /\ Gossip(Ev.from, Ev.to)
+TrBan     == IsEvent("ban")     /\ Ev.status = 200 /\ DoBan(Ev.b, Ev.k) /\ StateOK
+TrUnban   == IsEvent("unban")   /\ Ev.status = 200 /\ DoUnban(Ev.b, Ev.k) /\ StateOK
+TrUse     == IsEvent("use")     /\ Ev.ok = UseAllowed(Ev.b, Ev.k) /\ Use(Ev.b, Ev.k) /\ StateOK      \* refused iff banned, at once
+TrRestart == IsEvent("restart") /\ Restart(Ev.b) /\ StateOK
+TrGossip  == IsEvent("gossip")  /\ Gossip(Ev.from, Ev.to) /\ StateOK
 
 TraceInit == BanInit /\ l = 1 /\ MarkInit
 TraceNext == TrReset \/ TrBan \/ TrUnban \/ TrUse \/ TrRestart \/ TrGossip
